@@ -233,11 +233,15 @@ pub fn check(ctx: &Ctx) {
             windows.extend(c.saturating_sub(win)..=c + win);
         }
     }
+    // the packet-length encoding boundaries (1/2-octet at 192, 2/5-octet at 8384) minus every
+    // header / prefix / tag size that sits between the payload and a packet body
+    windows.extend(100..=200);
+    windows.extend(8384 - 70..=8384 + 8);
     windows.sort_unstable();
     windows.dedup();
-    for partial_exp in [9u8, 12, 13, 16] {
+    for partial_exp in [9u8, 12, 13, 16, 20] {
         for enc in [Enc::None, Enc::V1(9), Enc::V2(9, 1, 6), Enc::V2(7, 3, 7)] {
-            for (source, compression, signers) in [(1u8, 0u8, 0usize), (0, 0, 1), (1, 1, 1)] {
+            for (source, compression, signers) in [(1u8, 0u8, 0usize), (0, 0, 0), (0, 0, 1), (1, 1, 1)] {
                 let cfg = MsgCfg {
                     source,
                     compression,
@@ -262,7 +266,7 @@ pub fn check(ctx: &Ctx) {
     ctx.run_space(
         "boundary_windows",
         true,
-        &format!("every length within +-{win} of k*B for B in {{4096,8192,16384,65536}}, k in 1..3 x partial chunk 2^{{9,12,13,16}} x {{plain, SEIPDv1-AES256, SEIPDv2-AES256-EAX-4KiB, SEIPDv2-AES128-GCM-8KiB}} x {{reader, bytes+1 signer, reader+zip+1 signer}}"),
+        &format!("every length within +-{win} of k*B for B in {{4096,8192,16384,65536}}, k in 1..3 x partial chunk 2^{{9,12,13,16,20}} x {{plain, SEIPDv1-AES256, SEIPDv2-AES256-EAX-4KiB, SEIPDv2-AES128-GCM-8KiB}} x {{reader, bytes, bytes+1 signer, reader+zip+1 signer}}; plus every length in 100..200 and 8314..8392 (packet length-encoding boundaries 192 and 8384 minus header sizes)"),
         cases.into_par_iter(),
         run,
     );
